@@ -14,6 +14,7 @@
 import Golib.Value.Facts
 import Golib.Value.DecWF
 import Golib.Value.MapRefine
+import Golib.Value.Stream
 
 namespace C02
 open Value Prim
@@ -101,6 +102,40 @@ theorem decoded_is_wellformed (f : Nat) (bs : Bytes) (v : Value) (r : Bytes)
 theorem decode_normalises (bs : Bytes) (v : Value) (r r' : Bytes) (h : decode bs = some (v, r)) (hb : WFB bs) :
     decode (encV v ++ r') = some (v, r') := decode_stable bs v r r' h hb
 
+/-! ### from one call to streams and histories -/
+
+/-- a stream of values: the concatenation of k encodings (any k), followed by anything, read back
+    with k calls of `ReadValue` gives the k values in order and leaves exactly what followed -/
+theorem stream_roundtrip (vs : List Value) (r : Bytes) (h : WFVs vs) :
+    decodeMany vs.length (encVs vs ++ r) = some (vs, r) := decodeMany_encVs vs r h
+
+/-- reading until the input is exhausted recovers the whole sequence -/
+theorem stream_roundtrip_all (vs : List Value) (f : Nat) (h : WFVs vs) (hf : vs.length ≤ f) :
+    decodeAll f (encVs vs) = some vs := decodeAll_encVs vs f h hf
+
+/-- a process: in any history of encode / decode calls every output is the output of that call
+    alone (the model's codec has state `Unit`; that this transfers to the Go code is what
+    `C02Gen.no_package_state_written` / `codec_has_no_hidden_state` and the harness's history,
+    failed-decode and concurrent stages check) -/
+theorem history_outputs_are_per_call (cs : List Call) :
+    runCalls () cs = cs.map (fun c => (stepCall () c).2) := run_outputs cs
+
+/-- … so a decode anywhere in a history returns the value an encode produced, whatever was
+    encoded, decoded or rejected before it -/
+theorem roundtrip_anywhere_in_a_history (cs : List Call) (j : Nat) (hj : j < cs.length) (v : Value) (r : Bytes)
+    (hw : WFV v) (hc : cs[j] = .decode (encV v ++ r)) :
+    (runCalls () cs)[j]'(by rw [run_outputs]; simpa using hj) = .value v r :=
+  roundtrip_in_history cs j hj v r hw hc
+
+/-- the count guard of `ListValue.Read` (`CheckCount(count, 1)`, added by the C04 repair) never rejects
+    an input the unguarded model decodes: every value occupies at least one byte, so a list whose
+    `count` items decode had at least `count` bytes left -/
+theorem list_guard_never_rejects_decodable (f n : Nat) (bs : Bytes) (xs : List Value) (r : Bytes)
+    (h : decVs f n bs = some (xs, r)) : n ≤ bs.length := list_count_le_remaining f n bs xs r h
+
+theorem every_value_occupies_a_byte (f : Nat) (bs : Bytes) (v : Value) (r : Bytes) (h : decV f bs = some (v, r)) :
+    r.length < bs.length := decV_consumes f bs v r h
+
 /-! ### the association lists are what the real tables hold (link to C09) -/
 
 /-- `MapValue.Read` creates a `StringKeyLinkedMap` and `Put`s the decoded pairs in order.  For every
@@ -162,6 +197,7 @@ example : decode [70, 1, 2, 20, 2, 255, 127, 80, 1, 1, 1, 107, 50, 2, 104, 105, 
     some (.list [.dec (-129), .map [([107], .text [104, 105])]], [9]) := by rfl
 
 example : ¬ WFV (.map [([1], .null), ([1], .null)]) := by decide
+example : decodeMany 3 (encVs [.dec 5, .list [.null], .text [7]] ++ [9, 9]) = some ([.dec 5, .list [.null], .text [7]], [9, 9]) := by rfl
 example : foldPut ([] : List (Bytes × Value)) [([1], .null), ([2], .bool true), ([1], .dec 5)] = [([1], .dec 5), ([2], .bool true)] := by
   rfl
 example : Ctor.ofCode 47 = none := rfl     -- FLOAT_SUMMARY is declared but not implemented
